@@ -203,7 +203,10 @@ def K():
             for _ in range(4)]
     hop_peers = {k: Peer(keys[k % 4].pub(), (f"10.1.0.{k}", 2000 + k)) for k in range(1, 10)}
     dest = {k: (f"10.0.0.{k}", 1000 + k) for k in range(0, 10)}
-    _K = SimpleNamespace(asyncio=asyncio, tunnel=tunnel, TunnelEndpoint=TunnelEndpoint, RecEndpoint=RecEndpoint, StubTC=StubTC, Lis=Lis,
+    def cid_of(real, i):
+        return real.unloaded_cids.get(i) or real.overlays[i][0].community_id
+
+    _K = SimpleNamespace(asyncio=asyncio, cid_of=cid_of, tunnel=tunnel, TunnelEndpoint=TunnelEndpoint, RecEndpoint=RecEndpoint, StubTC=StubTC, Lis=Lis,
                          LifeTC=LifeTC, TunnelSettings=TunnelSettings, DataPayload=DataPayload,
                          InjectedFault=InjectedFault,
                          hop_peers=hop_peers, dest=dest, rdest={v: k for k, v in dest.items()},
@@ -243,6 +246,9 @@ class Real:
         self.helpers = []           # peer-side communities used to craft inbound packets
         self.outside = []           # what was emitted while no TunnelEndpoint.send was in progress (bypass detection)
         self.service = None         # an ipv8_service.IPv8 instance that built the endpoint stack itself
+        self.explicit = {}          # prefix -> True if its current anonymity was set by an explicit set_anonymity(…, True)
+        self.unloaded_cids = {}
+        self.stale = set()          # prefixes still switched on although no loaded overlay asks for anonymity any more
         self.plis_src = None        # where prefix listeners are registered when no TunnelEndpoint was built
         # bookkeeping (never read back from the endpoint)
         self.anon = {}
@@ -317,6 +323,12 @@ class Real:
         evs = []
         raws = [e for e in self.log if e[0] == "raw"]
         datas = [e for e in self.log if e[0] == "data"]
+        if is_anon and not owner_wants and packet[:22] in self.stale and raws != [("raw", addr, packet)]:
+            self._bad("Community.unload:stale-opt-in",
+                      f"packet {packet.hex()[:60]}… with a prefix under which NO loaded overlay asks for anonymity any more "
+                      f"(the anonymized overlay was unloaded, nobody switched the prefix on explicitly) was "
+                      f"{'tunnelled' if datas else 'queued' if (addr, packet) in after else 'dropped'} instead of being sent "
+                      "from the socket: an overlay that did not ask for anonymity is affected")
         if not is_anon:
             if raws != [("raw", addr, packet)] or datas or after != before or exc:
                 self._bad("TunnelEndpoint.send:plain-affected",
@@ -409,6 +421,7 @@ class Real:
         self.overlays.append((ov, want))
         if want:
             self.anon[ov.get_prefix()] = True
+            self.stale.discard(ov.get_prefix())
         ov._c07_lid = lid
         real_on_packet = ov.on_packet
 
@@ -458,6 +471,8 @@ class Real:
             return self.send(op[1], op[2])
         if kind == "anon":
             self.anon[op[1]] = op[2]
+            self.explicit[op[1]] = bool(op[2])
+            self.stale.discard(op[1])
             return self.quiet("set_anonymity", lambda: self.ep.set_anonymity(op[1], op[2]))
         if kind == "settc":
             self.att, self.hops = op[1], op[2]
@@ -526,8 +541,15 @@ class Real:
         if kind == "unload":
             if op[1] >= len(self.overlays):
                 return f"- q={len(self.ep.send_queue)}"
-            ov, _ = self.overlays[op[1]]
+            ov, asked = self.overlays[op[1]]
             self.overlays[op[1]] = (None, False)
+            if ov is not None:
+                self.unloaded_cids[op[1]] = ov.community_id
+            if ov is not None and asked:
+                pfx = ov.get_prefix()
+                if not self.explicit.get(pfx) and self.anon.get(pfx) and not any(
+                        o is not None and a and o.get_prefix() == pfx for o, a in self.overlays):
+                    self.stale.add(pfx)      # the last overlay that asked for anonymity under this prefix is gone
             return self.quiet("Community.unload", lambda: k.loop.run_until_complete(ov.unload())) if ov else \
                 f"- q={len(self.ep.send_queue)}"
         if kind == "tcdata":
@@ -1147,6 +1169,11 @@ def overlay_tier(ctx: Ctx, n_scen: int, use_model: bool):
                     i = rng.choice(live)
                     ctx.count("overlay:unload of %s overlay while others stay" % ("anonymized" if real.overlays[i][1] else "plain"))
                     run_history(ctx, real, [("unload", i), ("dump",)], lines, expect, record)
+                    if rng.random() < 0.5 and real.fail is None:
+                        # the same community id comes back (another pseudonym / re-configured), possibly plain this time
+                        cid, again = real.k.cid_of(real, i), rng.random() < 0.4
+                        ctx.count("overlay:re-load after unload, now %s" % ("anonymized" if again else "plain"))
+                        run_history(ctx, real, [("overlay", cid, again)], lines, expect, record)
                 elif r < 0.97 and real.real_tc and real.listeners:
                     cs = [i for i, c in enumerate(real.tc.circuits.values()) if c._hops]
                     if cs:
